@@ -108,12 +108,12 @@ func runC03(c *core.Ctx) {
 
 // describe a value stored into a Request field in terms of method fn's parameters.
 func describeReqValue(v ssa.Value, fn *ssa.Function) string {
-	v = facts.ResolveFree(v)
+	v = facts.ResolveFree(resolveUp(v, fn, 3))
 	if idx, root, ok := rootParam(v); ok && root == fn {
 		return sprintf("p%d", idx)
 	}
 	if b, fld, ok := facts.FieldOf(v); ok {
-		if idx, root, isP := rootParam(b); isP && root == fn && idx == 0 {
+		if idx, root, isP := rootParam(facts.ResolveFree(resolveUp(b, fn, 3))); isP && root == fn && idx == 0 {
 			return "recv." + fld
 		}
 		// field of a local struct literal with a single store
@@ -146,7 +146,8 @@ func describeReqValue(v ssa.Value, fn *ssa.Function) string {
 
 func requestLiterals(fn *ssa.Function, kindNames map[int64]string) []reqRow {
 	var out []reqRow
-	for _, f := range facts.WithAnon(fn) {
+	// fn, its literals, and the private helpers the request construction may have moved to
+	for _, f := range withHelpers(fn) {
 		for _, b := range f.Blocks {
 			for _, in := range b.Instrs {
 				al, ok := in.(*ssa.Alloc)
@@ -154,7 +155,22 @@ func requestLiterals(fn *ssa.Function, kindNames map[int64]string) []reqRow {
 					continue
 				}
 				if al.Comment != "complit" {
-					continue
+					// a variable filled in field by field (`var r Request; r.Kind = …`) is a
+					// construction too; a copy of another request (`r := *req`) is not
+					whole, kind := false, false
+					for _, ref := range *al.Referrers() {
+						if st, isSt := ref.(*ssa.Store); isSt && st.Addr == ssa.Value(al) {
+							whole = true
+						}
+						if fa, isFA := ref.(*ssa.FieldAddr); isFA {
+							if _, fld, _ := facts.FieldOf(fa); fld == "Kind" && len(facts.StoresTo(fa)) > 0 {
+								kind = true
+							}
+						}
+					}
+					if whole || !kind {
+						continue
+					}
 				}
 				row := reqRow{Kind: kindNames[0], Fields: map[string]string{}}
 				for _, ref := range *al.Referrers() {
@@ -432,16 +448,26 @@ func c03Debug(c *core.Ctx) {
 					if mi, isMI := v0.(*ssa.MakeInterface); isMI {
 						v0 = mi.X
 					}
-					// blobWriter{w: result0}
-					if u, isU := v0.(*ssa.UnOp); isU {
-						if al, isAl := u.X.(*ssa.Alloc); isAl {
-							for _, ref := range *al.Referrers() {
-								if fa, ok := ref.(*ssa.FieldAddr); ok {
-									for _, st := range facts.StoresTo(fa) {
-										if ex, isEx := facts.Resolve(st.Val).(*ssa.Extract); isEx && ex.Tuple == ssa.Value(call) && ex.Index == 0 {
-											resOK = true
-											bwType = al.Type().(*types.Pointer).Elem()
-										}
+					// blobWriter{w: result0}, built here or by a private helper given result0
+					for _, o := range helperResultOrigins(v0, 2) {
+						ov := o.V
+						if mi, isMI := ov.(*ssa.MakeInterface); isMI {
+							ov = facts.Resolve(mi.X)
+						}
+						u, isU := ov.(*ssa.UnOp)
+						if !isU {
+							continue
+						}
+						al, isAl := u.X.(*ssa.Alloc)
+						if !isAl {
+							continue
+						}
+						for _, ref := range *al.Referrers() {
+							if fa, ok := ref.(*ssa.FieldAddr); ok {
+								for _, st := range facts.StoresTo(fa) {
+									if ex, isEx := facts.Resolve(o.up(st.Val)).(*ssa.Extract); isEx && ex.Tuple == ssa.Value(call) && ex.Index == 0 {
+										resOK = true
+										bwType = al.Type().(*types.Pointer).Elem()
 									}
 								}
 							}
